@@ -282,6 +282,52 @@ theorem wf_no_markers {nG n : Nat} {pairs : List Pair} {tie : Tie} {chosen : Lis
 example : selectParent sampleThin [1] false 2 tieFirst = .ok [3] := by decide
 
 
+/-! ## the whole of `select_all_markers` -/
+
+/-- all clauses of the first two sentences of C12 for the result of
+`select_all_markers` (any cut-off, any per-parent tie policies, per-parent
+targets `p.n` after `n_per_utility_override`): one entry per parent, and every
+entry that is a selection is well-formed and covers each of the parent's pairs
+up to `min (2n) (available)`. -/
+theorem select_all_spec {t : RefTable} {query : List Nat} {parents : List Parent} {cutoff : Nat}
+    {ties : Nat → Tie} {r : List (Except Err (List Nat))}
+    (ht : TableWF t) (h : selectAll t query parents cutoff ties = .ok r) :
+    r.length = parents.length ∧
+    ∀ (i : Nat) (p : Parent) (names : List Nat), parents[i]? = some p →
+      r[i]? = some (Except.ok names) →
+      names.Nodup ∧ (∀ g ∈ names, g ∈ query ∧ g < t.nGenes) ∧
+      (∀ g ∈ names, ∃ k ∈ p.leaves, ∃ pr, t.pairs[k]? = some pr ∧ (g ∈ pr.up ∨ g ∈ pr.down)) ∧
+      (p.leaves = [] → names = []) ∧
+      (∀ k ∈ p.leaves, ∀ pr, t.pairs[k]? = some pr →
+        min (2 * p.n) ((pr.up ++ pr.down).countP (fun g => query.contains g))
+          ≤ names.countP (fun g => (pr.up ++ pr.down).contains g)) := by
+  unfold selectAll at h
+  cases hth : thin t query with
+  | error e => rw [hth] at h; cases h
+  | ok th =>
+    rw [hth] at h
+    simp only [Except.ok.injEq] at h
+    subst h
+    refine ⟨by simp, ?_⟩
+    intro i p names hp hi
+    simp only [List.getElem?_map, List.getElem?_zipIdx, Option.map_eq_some_iff] at hi
+    obtain ⟨⟨p1, j1⟩, ⟨p', hp', hpe⟩, hs⟩ := hi
+    rw [hp] at hp'
+    simp only [Option.some.injEq] at hp'
+    subst hp'
+    simp only [Prod.mk.injEq] at hpe
+    obtain ⟨rfl, rfl⟩ := hpe
+    simp only at hs
+    obtain ⟨h1, h2, h3⟩ := wf ht hth hs
+    refine ⟨h1, h2, h3, ?_, coverage ht hth hs⟩
+    intro hl
+    rw [hl] at hs
+    simp only [selectParent, List.isEmpty_nil, if_true, Except.ok.injEq] at hs
+    exact hs.symm
+
+example : selectAll sampleTable [3, 9, 0, 2] [⟨[2], 1⟩, ⟨[], 2⟩] 7 (fun _ => tieFirst)
+    = .ok [.ok [0, 2], .ok []] := by decide
+
 /-! ## indep -/
 
 /-- "The selection is the same for … any threshold deciding which parents are
